@@ -31,6 +31,15 @@ thread_local! {
     static LAST_PANIC: RefCell<Option<String>> = RefCell::new(None);
 }
 
+/// set the clock that `Clock::get()` returns on this thread (for checks that call program functions directly)
+pub fn set_thread_clock(slot: u64, unix_timestamp: i64) {
+    CLOCK.with(|c| {
+        let mut c = c.borrow_mut();
+        c.slot = slot;
+        c.unix_timestamp = unix_timestamp;
+    });
+}
+
 pub const PANIC_CODE: u32 = 0xdead_beef;
 pub const PRIV_ESCALATION_CODE: u32 = 0xdead_0001;
 pub const READONLY_MODIFIED_CODE: u32 = 0xdead_0002;
